@@ -667,10 +667,7 @@ impl Generator {
     // ---------------------------------------------------------------------------------------------
     // U6 (abstract effect of the emitters): which opcode is handed to process_stack_ops, with which
     // memo index, and that exactly one opcode is appended.  Byte-level encodings are the Kani side.
-    pub open spec fn int_like(op: OpcodeKind) -> bool {
-        op == OpcodeKind::Int || op == OpcodeKind::Long || op == OpcodeKind::Long1 || op == OpcodeKind::Long4
-        || op == OpcodeKind::BinInt || op == OpcodeKind::BinInt1 || op == OpcodeKind::BinInt2
-    }
+    pub open spec fn int_like(op: OpcodeKind) -> bool { vf_int_like(op) }
     pub open spec fn family(op: OpcodeKind, op2: OpcodeKind) -> bool {
         op2 == op || (Generator::int_like(op) && Generator::int_like(op2))
     }
@@ -708,6 +705,29 @@ impl Generator {
 //@contract
 //@endfn
 
+//@fn src/generator/mutation.rs Generator::mutate_int
+//@ret r
+//@assume
+//@contract
+//@endfn
+
+/// first-applicable-mutator-wins over the registered built-in mutators: whatever fires, the length
+/// stays within what string-length / character can produce (proved per mutator in unit mutv)
+//@fn src/generator/mutation.rs Generator::mutate_bytes
+//@ret r
+//@assume
+//@contract
+    ensures r@.len() <= 2 * value@.len() + 9,
+//@endfn
+
+/// first-applicable-mutator-wins: length bound and printable ASCII are preserved (proved per mutator in unit mutv)
+//@fn src/generator/mutation.rs Generator::mutate_string
+//@ret r
+//@assume
+//@contract
+    ensures r@.len() <= 2 * value@.len() + 9, printable(value@) ==> printable(r@),
+//@endfn
+
 //@fn src/generator/mutation.rs Generator::mutate_float
 //@ret r
 //@assume
@@ -730,6 +750,157 @@ pub fn get_random_module(&self, source: &mut GenerationSource) -> (r: Result<VfT
     ensures r is Ok, vf_line_parts(r->Ok_0.bytes()) >= 2, r->Ok_0.bytes().len() >= 2, text_ok(ArgClass::LinePairNl, r->Ok_0.bytes())
 { unimplemented!() }
 
+    pub open spec fn bytes_family(op: OpcodeKind) -> bool {
+        op == OpcodeKind::BinString || op == OpcodeKind::ShortBinString || op == OpcodeKind::ShortBinBytes
+        || op == OpcodeKind::BinBytes || op == OpcodeKind::BinBytes8 || op == OpcodeKind::ByteArray8
+    }
+
+//@arms src/generator/emission.rs Generator::emit_bytes opcode
+//@ret res
+//@ghost Ghost(r): Ghost<RefState>
+//@props C01 C04 C05 C10 C11 C17 C09
+//@sigsubst Result<()> => Result<(), VfError>
+//@subst (0..len).map(|_| source.gen_u8()).collect() => vf_gen_u8_vec(source, len)
+//@rewrite R14? process_stack_ops self.process_stack_ops($ARGS, Ghost(r), Ghost(RefArg { idx: 0 }))
+//@substall? (bytes.len() as i32).to_le_bytes() => vf_i32_to_le_bytes(bytes.len() as i32)
+//@substall? (bytes.len() as u32).to_le_bytes() => vf_u32_to_le_bytes(bytes.len() as u32)
+//@substall? (bytes.len() as u64).to_le_bytes() => vf_u64_to_le_bytes(bytes.len() as u64)
+//@contract
+    requires
+        old(self).rel(r), contig(r), !old(self).unsafe_mutations,
+        Generator::bytes_family(opcode),
+        ref_proto(opcode) <= ver_num(old(self).state.version),
+    ensures
+        res is Ok,
+        exists|chunk: Seq<u8>| #[trigger] final(self).emit_post(old(self), r, opcode, opcode, RefArg { idx: 0 }, chunk),
+//@before 1 Ok(())
+        proof {
+            let chunk = self.output@.subrange(old(self).output@.len() as int, self.output@.len() as int);
+            assert(self.output@ =~= old(self).output@ + chunk);
+            assert(chunk.len() >= 1 && chunk[0] == ref_code(opcode) as u8); // @C11 @C04
+            assert(enc_ok(opcode, chunk)); // @C04
+            assert(self.rel(ref_step(opcode, RefArg { idx: 0 }, r))); // @C17
+            assert(self.emit_post(old(self), r, opcode, opcode, RefArg { idx: 0 }, chunk));
+        }
+//@arm _
+//@unreachable
+//@endfn
+
+    pub open spec fn string_family(op: OpcodeKind) -> bool {
+        op == OpcodeKind::String || op == OpcodeKind::Unicode || op == OpcodeKind::ShortBinUnicode
+        || op == OpcodeKind::BinUnicode || op == OpcodeKind::BinUnicode8
+    }
+
+//@arms src/generator/emission.rs Generator::emit_string opcode
+//@ret res
+//@ghost Ghost(r): Ghost<RefState>
+//@props C01 C04 C05 C10 C11 C17 C09
+//@sigsubst Result<()> => Result<(), VfError>
+//@subst (0..len).map(|_| source.gen_ascii_char()).collect() => vf_gen_ascii_string(source, len)
+//@rewrite R14? process_stack_ops self.process_stack_ops($ARGS, Ghost(r), Ghost(RefArg { idx: 0 }))
+//@substall? s.into_bytes() => vf_string_into_bytes(s)
+//@substall? (bytes.len() as u32).to_le_bytes() => vf_u32_to_le_bytes(bytes.len() as u32)
+//@substall? (bytes.len() as u64).to_le_bytes() => vf_u64_to_le_bytes(bytes.len() as u64)
+//@prelude
+        let ghost mut gtext: Seq<u8> = Seq::empty();
+//@contract
+    requires
+        old(self).rel(r), contig(r), !old(self).unsafe_mutations,
+        Generator::string_family(opcode),
+        ref_proto(opcode) <= ver_num(old(self).state.version),
+    ensures
+        res is Ok,
+        exists|chunk: Seq<u8>| #[trigger] final(self).emit_post(old(self), r, opcode, opcode, RefArg { idx: 0 }, chunk),
+//@before 1 Ok(())
+        proof {
+            let chunk = self.output@.subrange(old(self).output@.len() as int, self.output@.len() as int);
+            assert(self.output@ =~= old(self).output@ + chunk);
+            assert(chunk.len() >= 1 && chunk[0] == ref_code(opcode) as u8); // @C11 @C04
+            if opcode == OpcodeKind::String || opcode == OpcodeKind::Unicode { assert(chunk.subrange(1, chunk.len() as int) =~= gtext); }
+            assert(enc_ok(opcode, chunk)); // @C04
+            assert(self.rel(ref_step(opcode, RefArg { idx: 0 }, r))); // @C17
+            assert(self.emit_post(old(self), r, opcode, opcode, RefArg { idx: 0 }, chunk));
+        }
+//@arm String
+//@subst let escaped = s ... ; => let escaped = vf_escape_py(&s);
+//@subst format!("'{}'\n", escaped) => vf_fmt_quoted_nl(&escaped)
+//@after 1 self.output.extend_from_slice(&arg_bytes);
+                proof { gtext = arg_bytes@; assert(self.output@.subrange(old(self).output@.len() as int + 1, self.output@.len() as int) =~= gtext); }
+//@arm Unicode
+//@subst s.replace('\\', "\\\\") => vf_escape_backslash(&s)
+//@subst format!("{}\n", escaped) => vf_fmt_line_nl(&escaped)
+//@after 1 self.output.extend_from_slice(&arg_bytes);
+                proof { gtext = arg_bytes@; assert(self.output@.subrange(old(self).output@.len() as int + 1, self.output@.len() as int) =~= gtext); }
+//@arm _
+//@unreachable
+//@endfn
+
+//@fn src/generator/emission.rs Generator::emit_global
+//@ret res
+//@ghost Ghost(r): Ghost<RefState>
+//@props C01 C04 C05 C11 C17 C09
+//@sigsubst Result<()> => Result<(), VfError>
+//@subst module.as_bytes().to_vec() => vf_to_vec(module.as_bytes())
+//@rewrite R14 process_stack_ops self.process_stack_ops($ARGS, Ghost(r), Ghost(RefArg { idx: 0 }))
+//@contract
+    requires
+        old(self).rel(r), contig(r), !old(self).unsafe_mutations,
+    ensures
+        res is Ok,
+        exists|chunk: Seq<u8>| #[trigger] final(self).emit_post(old(self), r, OpcodeKind::Global, OpcodeKind::Global, RefArg { idx: 0 }, chunk),
+//@before 1 Ok(())
+        proof {
+            let chunk = self.output@.subrange(old(self).output@.len() as int, self.output@.len() as int);
+            assert(self.output@ =~= old(self).output@ + chunk);
+            assert(chunk.subrange(1, chunk.len() as int) =~= arg_bytes@);
+            assert(enc_ok(OpcodeKind::Global, chunk)); // @C04
+            assert(self.emit_post(old(self), r, OpcodeKind::Global, OpcodeKind::Global, RefArg { idx: 0 }, chunk));
+        }
+//@endfn
+
+//@fn src/generator/emission.rs Generator::emit_int
+//@ret res
+//@ghost Ghost(r): Ghost<RefState>
+//@props C01 C04 C05 C11 C17 C09
+//@sigsubst Result<()> => Result<(), VfError>
+//@subst self.state.version as u8 => vf_version_u8(self.state.version)
+//@subst PICKLE_OPCODES.get(&version) => vf_pickle_opcodes(version)
+//@substall eyre!( ... ) => VfError { code: 1 }
+//@subst valid_kinds .iter() .cloned() .filter( ... ) .collect() => vf_filter_int_like(valid_kinds)
+//@subst format!("{int}\n") => vf_fmt_i32_nl(int)
+//@subst format!("{int}L\n") => vf_fmt_i32_l_nl(int)
+//@subst int.to_le_bytes().to_vec() => vf_arr4_to_vec(vf_i32_to_le_bytes(int))
+//@substall int.to_le_bytes() => vf_i32_to_le_bytes(int)
+//@subst size.to_le_bytes() => vf_u32_to_le_bytes(size)
+//@subst (int & 0xFFFF).to_le_bytes() => vf_i32_to_le_bytes(int & 0xFFFF)
+//@subst bytes[..2].to_vec() => vf_first2_to_vec(&bytes)
+//@rewrite R17 int vf_int
+//@rewrite R14 process_stack_ops self.process_stack_ops($ARGS, Ghost(r), Ghost(RefArg { idx: 0 }))
+//@contract
+    requires
+        old(self).rel(r), contig(r), !old(self).unsafe_mutations,
+    ensures
+        res is Ok,
+        exists|op2: OpcodeKind, chunk: Seq<u8>| Generator::int_like(op2)
+            && #[trigger] final(self).emit_post(old(self), r, op2, op2, RefArg { idx: 0 }, chunk),
+//@after 1 let chosen = int_like[idx];
+        proof {
+            assert(valid_kinds@.contains(chosen));
+            let j = choose|j: int| 0 <= j < valid_kinds@.len() && valid_kinds@[j] == chosen;
+            assert(ref_proto(valid_kinds@[j]) <= version);
+        }
+//@before 1 Ok(())
+        proof {
+            let chunk = self.output@.subrange(old(self).output@.len() as int, self.output@.len() as int);
+            assert(self.output@ =~= old(self).output@ + chunk);
+            assert(chunk.subrange(1, chunk.len() as int) =~= arg@);
+            assert(chunk.len() == 1 + arg@.len());
+            assert(enc_ok(chosen, chunk)); // @C04
+            assert(ref_proto(chosen) <= ver_num(old(self).state.version)); // @C05
+            assert(self.emit_post(old(self), r, chosen, chosen, RefArg { idx: 0 }, chunk));
+        }
+//@endfn
+
 //@define EMIT_CONTRACT
 //@contract
     requires
@@ -742,13 +913,18 @@ pub fn get_random_module(&self, source: &mut GenerationSource) -> (r: Result<VfT
 //@arms src/generator/emission.rs Generator::emit_and_process opcode
 //@ret res
 //@ghost Ghost(r): Ghost<RefState>
-//@props C01 C02 C03 C05 C07 C10 C11 C17 C09
+//@props C01 C02 C03 C04 C05 C07 C10 C11 C17 C09
 //@sigsubst Result<()> => Result<(), VfError>
 //@prelude
         let ghost mut gtext: Seq<u8> = Seq::empty();
 //@use EMIT_CONTRACT
 //@arm Int | Long | Long1 | Long4 | BinInt | BinInt1 | BinInt2
-//@assume
+//@rewrite R14 emit_int self.emit_int($ARGS, Ghost(r))
+//@before 1 Ok(())
+        proof {
+            let (op2, chunk) = choose|op2: OpcodeKind, chunk: Seq<u8>| Generator::int_like(op2) && self.emit_post(old(self), r, op2, op2, RefArg { idx: 0 }, chunk);
+            assert(self.emit_post(old(self), r, opcode, op2, RefArg { idx: 0 }, chunk));
+        }
 //@arm Float
 //@subst format!("{}\n", value) => vf_fmt_f64_nl(value)
 //@rewrite R14 process_stack_ops self.process_stack_ops($ARGS, Ghost(r), Ghost(RefArg { idx: 0 }))
@@ -777,11 +953,11 @@ pub fn get_random_module(&self, source: &mut GenerationSource) -> (r: Result<VfT
             assert(self.emit_post(old(self), r, opcode, opcode, RefArg { idx: 0 }, chunk));
         }
 //@arm String | Unicode | ShortBinUnicode | BinUnicode | BinUnicode8
-//@assume
+//@rewrite R14 emit_string self.emit_string($ARGS, Ghost(r))
 //@arm BinString | ShortBinString | ShortBinBytes | BinBytes | BinBytes8 | ByteArray8
-//@assume
+//@rewrite R14 emit_bytes self.emit_bytes($ARGS, Ghost(r))
 //@arm Global
-//@assume
+//@rewrite R14 emit_global self.emit_global($ARGS, Ghost(r))
 //@arm Put
 //@subst format!("{}\n", index) => vf_fmt_usize_nl(index)
 //@rewrite R14 process_stack_ops self.process_stack_ops($ARGS, Ghost(r), Ghost(RefArg { idx: index as int }))
@@ -1081,6 +1257,7 @@ pub fn get_random_module(&self, source: &mut GenerationSource) -> (r: Result<VfT
     pub open spec fn body_wf(chunks: Seq<Seq<u8>>, t: Trace) -> bool {
         chunks.len() == t.len()
         && forall|i: int| 0 <= i < chunks.len() ==> (#[trigger] chunks[i]).len() >= 1 && chunks[i][0] == ref_code(t[i].0) as u8
+            && enc_ok(t[i].0, chunks[i])
     }
 
     /// header bytes: PROTO v for protocol >= 2, nothing otherwise; then 9 reserved FRAME bytes if framed
@@ -1117,7 +1294,7 @@ pub fn get_random_module(&self, source: &mut GenerationSource) -> (r: Result<VfT
 
 //@fn src/generator/core.rs Generator::generate_internal
 //@ret res
-//@props C01 C02 C03 C05 C06 C08 C09 C10 C11
+//@props C01 C02 C03 C04 C05 C06 C08 C09 C10 C11
 //@sigsubst Result<Vec<u8>> => Result<Vec<u8>, VfError>
 //@subst self.state.version >= Version::V4 => vf_version_ge(self.state.version, Version::V4)
 //@subst self.max_opcodes.saturating_sub(self.min_opcodes) => vf_sat_sub_usize(self.max_opcodes, self.min_opcodes)
